@@ -342,6 +342,12 @@ fn via_builder(c: &Checksum<'_>, model: &Model, typed: bool, spell_seed: u64, at
         5 => &[("arch", ""), ("checksum", "old:00"), ("vcs_url", "git+https://example.com/r@1")],
         _ => &[],
     };
+    // Keys that differ from `checksum` at a '_' or sort right next to it (another quarter of the runs).
+    let around: &[(&str, &str)] = match (spell_seed >> 20) % 8 {
+        0 => &[("check_only", "1"), ("checks", "2"), ("checksumz", "3")],
+        1 => &[("_x", "1"), ("check_only", "1"), ("zzz", "")],
+        _ => around,
+    };
     for (k, v) in around {
         // An older checksum only makes sense where the new one replaces it (typed lane, or the text
         // lane, whose with_qualifier overwrites).
@@ -350,7 +356,28 @@ fn via_builder(c: &Checksum<'_>, model: &Model, typed: bool, spell_seed: u64, at
             .map_err(|e| violation!("C12.builder_refused_valid_checksum", "{at}: with_qualifier({k:?}, {v:?}) failed: {e}"))?;
     }
     if model.is_empty() {
-        // Nothing replaces an older checksum then; keep the lane as it was for the empty set.
+        // The empty set over an older checksum (typed lane): whether the empty set is accepted is not
+        // judged, but if it is accepted and the build succeeds, the older entries must not be readable
+        // any more - "reading it back through the typed accessor gives the same entries".
+        if typed && around.iter().any(|(k, _)| *k == "checksum") {
+            let copy = c.clone();
+            let accepted = guarded(move || builder.try_with_typed_qualifier(Some(copy)))
+                .map_err(|p| violation!("C12.panic_in_serialize", "{at}: try_with_typed_qualifier with no entries panicked: {p}"))?;
+            if let Ok(b) = accepted {
+                let built = guarded(move || b.build()).map_err(|p| violation!("C12.panic_in_build", "{at}: build() panicked: {p}"))?;
+                if let Ok(purl) = built {
+                    if let Some(stale) = purl.qualifiers().get("checksum") {
+                        return Err(violation!(
+                            "C12.typed_accessor_differs",
+                            "{at}: a checksum with no entries was set over an older one and accepted, yet the PURL still carries checksum={stale:?}"
+                        ));
+                    }
+                }
+            }
+            ev!(log, "{at} builder typed empty over an older checksum");
+            return Ok(());
+        }
+        // Otherwise keep the lane as it was for the empty set.
         builder = GenericPurlBuilder::new(String::from("generic"), "n");
     } else if (spell_seed >> 12) % 3 == 0 {
         // A removal before the checksum goes in: the first of the surrounding qualifiers.
@@ -446,7 +473,7 @@ fn via_parser(model: &Model, spell_seed: u64, at: &str, log: &mut Log) -> Result
         0 => format!("pkg:generic/n?{key}={value}"),
         1 => format!("pkg:generic/n?a=1&{key}={value}&z=2"),
         2 => format!("pkg:generic/n@1?z=2&{key}={value}#sub"),
-        3 => format!("pkg:generic/ns/n?{key}={value}&a=1"),
+        3 => format!("pkg:generic/ns/n?{key}={value}&a=1&check_only=1&_x=2&checks=3&checksumz=4"),
         _ => format!("pkg:GENERIC/n?empty=&{key}={value}"),
     };
     ev!(log, "{at} parse {input:?}");
